@@ -356,29 +356,58 @@ def render_one(prog: list[dict], form: str = "comp") -> str:
     return "\n".join(lines)
 
 
+_pending: list[dict] = []      # observations waiting for TLC's verdict (all slices are judged together: one JVM start costs
+                               # more than judging a few hundred observations)
+
+
 def judge(check: core.Check, progs: list[dict], label: str, mode: str = "value", need_use: bool = True) -> None:
-    if need_use:
-        progs = [p for p in progs if _has_use(p["prog"])]
+    """Replay the bodies through the real checker; the observations are judged by flush()."""
     import time
 
+    if need_use:
+        progs = [p for p in progs if _has_use(p["prog"])]
     t0 = time.time()
-    batches = [(i, progs[i : i + 150], mode) for i in range(0, len(progs), 150)]
+    base = check.cov.get("evaluations", 0) + len(_pending)
+    batches = [(base + i, progs[i : i + 150], mode) for i in range(0, len(progs), 150)]
     parts = core.pmap(observe_batch, batches, chunk=1)
     obs = [o for part in parts for o in part]
-    t1 = time.time()
-    # one JVM start costs more than judging a few hundred observations: at most 14 batches, run side by side
-    batch = min(2500, max(150, -(-len(obs) // 14)))
-    verdicts, stats = core.adjudicate("ScopesTrace", "ScopesTrace.cfg", obs, batch=batch, parallel=14, timeout=1500)
+    for o in obs:
+        o["_label"], o["_mode"] = label, mode
+    _pending.extend(obs)
+    check.cov.setdefault("phase_s", {})[label] = {"observations": len(obs), "real_code_s": round(time.time() - t0, 1)}
+    for o in obs[:: max(1, len(obs) // 3)][:3]:
+        check.sample({"source": label, "src": render_one(o["prog"], o.get("form", "comp")), "uses": o["uses"], "unused": o["unused"]},
+                     limit=12)
+    if len(_pending) >= 40000:
+        flush(check)
+
+
+def flush(check: core.Check) -> None:
+    """TLC adjudicates every pending observation against ScopesTrace.tla (at most 14 batches, run side by side; the
+    observations are dealt round-robin so that the slices with the costly bodies are spread over the batches)."""
+    import time
+
+    obs = list(_pending)
+    _pending.clear()
+    if not obs:
+        return
+    t0 = time.time()
+    k = min(14, max(1, len(obs) // 150))
+    dealt = [obs[j] for i in range(k) for j in range(i, len(obs), k)]
+    batch = -(-len(dealt) // k)
+    wire = [{key: val for key, val in o.items() if not key.startswith("_")} for o in dealt]
+    verdicts, stats = core.adjudicate("ScopesTrace", "ScopesTrace.cfg", wire, batch=batch, parallel=14, timeout=2400)
     check.add_trace_stats(stats)
     check.evals(len(obs))
-    check.cov.setdefault("phase_s", {})[label] = {"observations": len(obs), "real_code_s": round(t1 - t0, 1),
-                                                  "tlc_judging_s": round(time.time() - t1, 1)}
+    check.cov["tlc_judging_s"] = round(check.cov.get("tlc_judging_s", 0) + time.time() - t0, 1)
     by_tid = {o["tid"]: o for o in obs}
+    if len(by_tid) != len(obs):
+        raise core.MachineryError("observation ids are not unique")
     for tid, vs in verdicts.items():
         o = by_tid[tid]
         form = o.get("form", "comp")
-        payload = {"case": {"prog": o["prog"], "mode": mode, "form": form}, "src": render_one(o["prog"], form), "uses": o["uses"],
-                   "unused": o["unused"], "source": label}
+        payload = {"case": {"prog": o["prog"], "mode": o["_mode"], "form": form}, "src": render_one(o["prog"], form), "uses": o["uses"],
+                   "unused": o["unused"], "source": o["_label"]}
         for v in set(vs):
             if v.startswith("viol:"):
                 check.violation(core.canon(o["prog"]), v[5:], payload)
@@ -394,9 +423,6 @@ def judge(check: core.Check, progs: list[dict], label: str, mode: str = "value",
     for o in obs:
         if any(s["k"] not in ("assign", "use", "call", "callg") for s in o["prog"]):
             check.nontrivial(core.canon(o["prog"]))
-    for o in obs[:: max(1, len(obs) // 3)][:3]:
-        check.sample({"source": label, "src": render_one(o["prog"], o.get("form", "comp")), "uses": o["uses"], "unused": o["unused"]},
-                     limit=12)
 
 
 def _blocks(s: dict) -> list[list[dict]]:
@@ -442,6 +468,13 @@ class _TLCJobs:
         for name in self.futs:
             self.get(name)
         self.ex.shutdown()
+
+
+def _sample(rnd: random.Random, progs: list[dict], n: int) -> list[dict]:
+    """A seeded sample that does not depend on the order in which TLC's workers emitted the bodies."""
+    if len(progs) <= n:
+        return progs
+    return rnd.sample(sorted(progs, key=core.canon), n)
 
 
 def _with_forms(progs: list[dict]) -> list[dict]:
@@ -567,10 +600,10 @@ def run(check: core.Check) -> None:
         tlc.finish()
     selftest(check)
     progs = core.emitted_json(tlc.get("emit"))
-    limit = 1000 if quick else 10**7
+    limit = 2000 if quick else 10**7
     exhaustive = len(progs) <= limit
     if not exhaustive:
-        progs = rnd.sample(progs, limit)
+        progs = _sample(rnd, progs, limit)
     check.cov["exhaustive"] = exhaustive
     check.cov["rule"] = ("function bodies built by TLC's generator (ScopeGen.tla); non-trivial = contains a control construct. "
                          "Slices: all bodies <= 4 statements / depth 2 / 2 variables on the model (thorough: 5 / depth 3 / 2 variables "
@@ -594,13 +627,11 @@ def run(check: core.Check) -> None:
     # the model; the 47k bodies with a break under a try / suppressing with are replayed -- a seeded sample in the quick tier)
     lprogs = core.emitted_json(tlc.get("loopexit7"))
     if quick:
-        lprogs = rnd.sample(lprogs, 5000)
+        lprogs = _sample(rnd, lprogs, 5000)
     judge(check, lprogs, "tlc-loop-exit")
     # loop-carried definitions: one loop with if / try branches that leave by continue / break / return (6 statements; the
-    # bodies with a continue and a use are replayed -- a seeded sample in the quick tier; 7 statements on the model in thorough)
-    cprogs = core.emitted_json(tlc.get("loopcont6"))
-    if quick:
-        cprogs = rnd.sample(cprogs, 2500)
+    # bodies with a continue and a use are all replayed; 7 statements on the model in thorough)
+    cprogs = core.emitted_json(tlc.get("loopcont6"))      # replayed exhaustively in both tiers
     judge(check, cprogs, "tlc-loop-continue")
     # finally clauses: for + try/except/else/finally, the finally clause reads a variable that the body / a handler / the
     # else clause binds (blocks that bind and then return / break / continue, re-binding after a call), and break / continue
@@ -608,25 +639,26 @@ def run(check: core.Check) -> None:
     fprogs = core.emitted_json(tlc.get("finally5"))
     if not quick:
         f6 = core.emitted_json(tlc.get("finally6"))
-        fprogs += rnd.sample(f6, min(len(f6), 10000))
+        fprogs += _sample(rnd, f6, 10000)
     judge(check, fprogs, "tlc-finally")
     # other binding forms, observed on the state anchor itself (usage_to_definition_nodes of the function scope) because
     # their values are not literals; replayed exhaustively in thorough, a seeded sample in quick
     bprogs = core.emitted_json(tlc.get("binders4"))
     if quick:
-        bprogs = rnd.sample(bprogs, 3000)
+        bprogs = _sample(rnd, bprogs, 3000)
     judge(check, bprogs, "tlc-binders", mode="nodes", need_use=False)
     iprogs = core.emitted_json(tlc.get("inner4"))
     if quick:
-        iprogs = rnd.sample(iprogs, 900)
+        iprogs = _sample(rnd, iprogs, 900)
     judge(check, _with_forms(iprogs), "tlc-inner-scopes", mode="nodes", need_use=False)
     # match statements: captures (`case x`, `case [x]`), guards, the wildcard; nested in if / match (5 statements)
     mprogs = [p for p in core.emitted_json(tlc.get("match5")) if _has_kind(p["prog"], "match")]
-    mprogs = rnd.sample(mprogs, 1500 if quick else 20000)
+    mprogs = _sample(rnd, mprogs, 1500 if quick else 20000)
     judge(check, mprogs, "tlc-match", mode="nodes")
     sim = core.simulate_cases("ScopeGenEmit", "ScopeGen.sim.cfg", 120 if quick else 12000, depth=30, seed=check.seed + 9,
                               check=check)
     judge(check, sim, "tlc-simulate")
+    flush(check)
     tlc.finish()
     check.assumptions.append(
         "C09 domain: no dead code after return/raise/break/continue in a block (and, in the slices loopcont / binders / inner / "
@@ -642,3 +674,4 @@ def replay(check: core.Check, witness: dict) -> None:
     case = witness["case"]
     check.cov.setdefault("information", {})
     judge(check, [{"prog": case["prog"], "form": case.get("form", "comp")}], "replay", mode=case.get("mode", "value"), need_use=False)
+    flush(check)
